@@ -14,7 +14,7 @@ pub fn prop() -> Prop {
         rule: "the real jawk binary built from the working tree, spawned with pipes: 18 inputs (clean, noisy, junk words and broken literals between values, truncated tail, empty; 3000 rows, one 70 KB row, 1500 diagnostics, a long clean stream with a truncated tail - output beyond every stdout buffer) x 4 --on-error policies x 24 configurations (11 valid pipelines, two with --skip/--take at the edge of the 64-bit range, incl. options unrelated to error handling such as --only-objects-and-arrays, --unique, cache size, styles, split+group; 11 classes of invalid configuration, missing input file, file argument) x stdout in {pipe, pipe whose reader is gone (EPIPE), /dev/full} x row separator with/without newline; all combinations; non-trivial = the run produces output or must fail; distinct by construction; inputs that cannot be read: /proc/self/mem as a file argument after a readable file, a directory as the standard input; the version and help requests (long and short, alone and next to other options) and four usage errors",
         explanation: "every combination is executed as a child process and compared with the in-process run of the same arguments: stdout = exactly the in-process stdout sink, under --on-error=stderr the diagnostics = exactly the in-process stderr sink and none on stdout, exit status 0 iff the in-process Result is Ok and stdout accepted every byte, otherwise non-zero with a non-empty stderr",
         assumptions: a,
-        guards: vec!["version-and-help", "unreadable-input", "output-beyond-every-buffer", "exit-nonzero-on-config-error", "exit-nonzero-on-full-stdout", "epipe", "stderr-policy-diagnostics", "unterminated-buffer-flush", "panic-policy-fails", "missing-file"],
+        guards: vec!["file-name-that-is-not-text", "version-and-help", "unreadable-input", "output-beyond-every-buffer", "exit-nonzero-on-config-error", "exit-nonzero-on-full-stdout", "epipe", "stderr-policy-diagnostics", "unterminated-buffer-flush", "panic-policy-fails", "missing-file"],
         budget_s: (100, 900),
         single_worker: false,
         run,
@@ -118,6 +118,28 @@ fn run(ctx: &mut Ctx) {
             let a2 = vec![format!("--on-error={policy}"), f1.to_string_lossy().into_owned(), missing.to_string_lossy().into_owned()];
             ctx.guard("missing-file");
             one(ctx, &bin, &a2, b"1", Some(&a2), &format!("missing file policy {policy}"), true, policy, ii);
+            // a file whose NAME is not valid UTF-8 (file names are bytes): a readable input like any other
+            {
+                use std::os::unix::ffi::OsStrExt;
+                let odd = d.join(std::ffi::OsStr::from_bytes(b"in\xff\xfe.json"));
+                if std::fs::write(&odd, input.as_bytes()).is_ok() {
+                    let os_args: Vec<std::ffi::OsString> = vec![format!("--on-error={policy}").into(), odd.clone().into_os_string()];
+                    let plain = drive::run_child_env(&bin, &a1, b"", OutMode::Pipe, &[]);
+                    let oddrun = drive::run_child_env(&bin, &os_args, b"", OutMode::Pipe, &[]);
+                    if let (Ok(p), Ok(o)) = (plain, oddrun) {
+                        ctx.rep.evaluations += 1;
+                        ctx.case_done();
+                        ctx.guard("file-name-that-is-not-text");
+                        // diagnostics name the file: only the rows are compared
+                        let rows_of = |b: &[u8]| -> Vec<u8> { b.split_inclusive(|c| *c == b'\n').filter(|l| !l.starts_with(b"error:")).flatten().copied().collect() };
+                        if o.code != p.code || rows_of(&o.stdout) != rows_of(&p.stdout) {
+                            let rcase = Case { args: a1.clone(), input: Input::Stdin(b"<the same file under a name that is not valid UTF-8>".to_vec()), rplan: Default::default(), wplan: Default::default() };
+                            ctx.violation(if p.code == Some(0) { "nonzero-exit-on-success" } else { "stdout-differs-from-library-run" }, &format!("file name that is not valid UTF-8, policy {policy}"), &[rcase], format!("exit={:?} stdout={:?}", p.code, drive::trunc(&String::from_utf8_lossy(&p.stdout), 120)), format!("exit={:?} stdout={:?} stderr={:?}", o.code, drive::trunc(&String::from_utf8_lossy(&o.stdout), 120), drive::trunc(&String::from_utf8_lossy(&o.stderr), 120)));
+                        }
+                    }
+                    let _ = std::fs::remove_file(&odd);
+                }
+            }
             // inputs that cannot be READ: a file whose first read fails (EIO) after a readable file, and a standard input
             // whose every read fails (it is a directory)
             let a3 = vec![format!("--on-error={policy}"), f1.to_string_lossy().into_owned(), "/proc/self/mem".to_string()];
